@@ -194,6 +194,9 @@ def classify(ctx, table, cases, bad):
                 v["coarseonly"], json.dumps(e)[:900]))
         for what in v["fine"]:
             sig = {"engine": "factor", "routine": e["routine"], "what": what, "input": v["inclass"]}
+            if what == "err":
+                # an error on an admissible input: classify by the reason the routine gives
+                sig["errclass"] = "no_convergence" if "did not converge" in (e.get("msg") or "") else "other"
             if what == "timeout":
                 n_timeout += 1
             detail = {"case": cases[e["case"]][1] if e["case"] < len(cases) else None, "contracts": json.loads(table),
@@ -208,7 +211,7 @@ def rate_check(ctx, summ, bad):
     eigenvalues); a routine that stops returning on a sizeable share of its calls is something else"""
     lost = {}
     for e, v in bad:
-        if "timeout" in v["fine"]:
+        if "timeout" in v["fine"] or ("err" in v["fine"] and "did not converge" in (e.get("msg") or "")):
             lost[e["routine"]] = lost.get(e["routine"], 0) + 1
     rates = {}
     for rt, n in summ["per_routine"].items():
